@@ -17,13 +17,13 @@ def _clear_caches(ns_):
             cc_()
 
 PROPERTY = "C15"
-REGIONS = ["solve", "solve-include-virtual", "solve-none", "select", "select-none", "select-raises", "cfgselect-only-leafs", "exact-solver",
+REGIONS = ["several-dictionaries-in-one-select", "solve", "solve-include-virtual", "solve-none", "select", "select-none", "select-raises", "cfgselect-only-leafs", "exact-solver",
            "generated-id-column", "foreign-id-in-objective", "two-objectives"]
 BOUNDS = ("PL family models (<=7 compounds, concrete parameters, M7) and CFG family configurators; objective dictionaries over (column ids + 2 foreign ids) "
           "with symbolic presence and symbolic weights |w|<=2^20; the solver callable is the harness and returns one symbolic integer per column "
           "(|s|<=2^20), or None, or raises; select(): priority values symbolic |p|<=20 on <=2 ids. Exact-solver clause: z3's optimiser plugged in as "
           "the callable with concrete seeded weights, optimality re-decided by a separate query (concrete per instantiation)")
-OUTSIDE = "solver=None (the built-in beta solver); try_reduce_before=True; more than two objectives per call"
+OUTSIDE = "solver=None (the built-in beta solver); try_reduce_before=True; more than three objectives per call"
 FAMILY = "models/configurators x {solve, select, StingyConfigurator.select(only_leafs), exact} x solver answer kind"
 ASSUMPTIONS = ["M1", "M4", "M7", "M8", "M10", "for select() the expected objective is recomputed by the harness with its own id->column alignment and the real ndint_compress (C13/C14 cover the compression itself)"]
 
@@ -58,6 +58,8 @@ def instantiations(tier, seed):
             for how in ("bare", "assert", "two-args"):
                 out.append({"part": ["select", "cfgselect"][k % 2], "model": c, "prio_keys": keys[:1], "answer": "raise", "raise_how": how, "only_leafs": bool(k % 4)})
         out.append({"part": "cfgselect", "model": c, "prio_keys": keys[:1], "answer": "vector", "only_leafs": True})
+        if k % 2 == 0 or tier == "thorough":
+            out.append({"part": ["select", "cfgselect"][(k // 2) % 2], "model": c, "prio_keys": keys[:1], "answer": "vector", "only_leafs": bool(k % 3 == 0), "nprio": 2 + (k // 4) % 2})
         if k % 3 == 1:
             out.append({"part": "cfgselect", "model": c, "prio_keys": keys[:1], "answer": "vector", "only_leafs": False})
         if tier == "thorough" or k % 4 == 0:
@@ -147,12 +149,15 @@ def run_inst(spec, run):
                 else:
                     prios = {k: ctx.int("p_%s" % k, -20, 20) for k in spec["prio_keys"]}
                     d["prios"] = prios
+                    # several priority dictionaries in ONE call: every request gets its own objective and its own reported dictionary
+                    more = [{spec["prio_keys"][-1]: 2 + j} for j in range(spec.get("nprio", 1) - 1)]
+                    d["prios_list"] = [prios] + more
                     if part == "select":
                         P = m1.ge_polyhedron
                         d["Pself"] = P
-                        out = list(P.select(dict(prios), solver=solver))
+                        out = list(P.select(dict(prios), *map(dict, more), solver=solver))
                     else:
-                        out = list(m1.select(dict(prios), solver=solver, only_leafs=spec["only_leafs"]))
+                        out = list(m1.select(dict(prios), *map(dict, more), solver=solver, only_leafs=spec["only_leafs"]))
             except ns.pnd.InfeasibleError as e:
                 err = "InfeasibleError"
             except Exception as e:    # noqa
@@ -212,19 +217,22 @@ def run_inst(spec, run):
                 if part == "select" and P is not d.get("Pself"):
                     viol.append(z3.BoolVal(True))
                 # expected objective: harness-side alignment + real compression
-                prios = d["prios"]
                 dv = list(np.asarray(P.default_prio_vector))
-                uv = [prios[c] if c in prios else 0 for c in cols]
-                arr = np.empty((1, 2, len(cols)), dtype=object)
-                for j in range(len(cols)):
-                    arr[0, 0, j] = S.K(int(dv[j]))
-                    arr[0, 1, j] = uv[j] if isinstance(uv[j], S.SymInt) else S.K(0)
-                exp = ns.pnd.integer_ndarray(arr).ndint_compress(method="shadow", axis=0)
-                if nobj != 1 or len(got["objs"][0]) != len(cols):
+                plist = d["prios_list"]
+                if len(plist) >= 2:
+                    run.region("several-dictionaries-in-one-select")
+                if nobj != len(plist) or any(len(o) != len(cols) for o in got["objs"]):
                     viol.append(z3.BoolVal(True))
                 else:
-                    for j in range(len(cols)):
-                        viol.append(S.term(got["objs"][0][j]) != S.term(exp[0][j]))
+                    for kk, prios in enumerate(plist):
+                        uv = [prios[c] if c in prios else 0 for c in cols]
+                        arr = np.empty((1, 2, len(cols)), dtype=object)
+                        for j in range(len(cols)):
+                            arr[0, 0, j] = S.K(int(dv[j]))
+                            arr[0, 1, j] = uv[j] if isinstance(uv[j], S.SymInt) else S.K(int(uv[j]))
+                        exp = ns.pnd.integer_ndarray(arr).ndint_compress(method="shadow", axis=0)
+                        for j in range(len(cols)):
+                            viol.append(S.term(got["objs"][kk][j]) != S.term(exp[0][j]))
             # reported dictionaries
             if len(out) != nobj:
                 viol.append(z3.BoolVal(True))
